@@ -220,6 +220,7 @@ CORPUS["C07"] = [
 ]
 
 CORPUS["C08"] = [
+    B("enhancement by np.select", (EAS, "        logenhanceFactor = np.empty_like(enhanceFactor)\n        efMask = enhanceFactor > 2.0\n        logenhanceFactor[efMask] = np.log(enhanceFactor[efMask])\n        logenhanceFactor[~efMask] = 0.5\n", "        efMask = enhanceFactor > 2.0\n        with np.errstate(all=\"ignore\"):\n            logenhanceFactor = np.select([efMask], [np.log(enhanceFactor)], 0.5)\n")),
     M("quantum efficiency dropped", (EAS, "            * self.config.detector.optical.quantum_efficiency\n", "\n")),
     M("extra showerEnergy factor", (EAS, "            # * showerEnergy  # Scaling", "            * showerEnergy  # Scaling")),
     M("altitude ratio not squared", (CPH, "        ) ** 2\n\n        photonDen", "        )\n\n        photonDen")),
@@ -418,6 +419,8 @@ CORPUS["C19"] = [
 ]
 
 CORPUS["C20"] = [
+    B("energy scaling by einsum", (RADIO, "EFields[mask] = (EFields[mask].T * showerEnergy[mask] / 10.0).T", "EFields[mask] = np.einsum('ij,i->ij', EFields[mask], showerEnergy[mask] / 10.0)")),
+    B("frequency sum by einsum", (ANT, "    V_sigsum = np.sum(V_sig, axis=1)", "    V_sigsum = np.einsum('ij->i', V_sig)")),
     M("frequency sum runs over the events", (ANT, "    V_sigsum = np.sum(V_sig, axis=1)", "    V_sigsum = np.sum(V_sig.T, axis=1)")),
     M("square field arrays are transposed", (ANT, "    V_sig = Nants * voltage_from_field(Efield, freqs, gain)", "    if Efield.shape[0] == freqs.size:\n        Efield = np.swapaxes(Efield, 0, 1)\n    V_sig = Nants * voltage_from_field(Efield, freqs, gain)")),
     B("frequency sum over the first axis of the transposed voltages", (ANT, "    V_sigsum = np.sum(V_sig, axis=1)", "    V_sigsum = np.sum(V_sig.T, axis=0)")),
